@@ -2,6 +2,7 @@ package harness
 
 import (
 	"fmt"
+	"strings"
 
 	"pgregory.net/rapid"
 )
@@ -402,4 +403,71 @@ func shuffle[T any](t *rapid.T, label string, xs []T) []T {
 		out[i], out[j] = out[j], out[i]
 	}
 	return out
+}
+
+// GenLayout draws a permutation of n documents and a partition into 1-4 files in 0-2 nested sub-directories with
+// .yaml/.yml/.json extensions (json: single-document files only).
+func GenLayout(t *rapid.T, label string, n int) *Layout {
+	idx := make([]int, n)
+	for i := range idx {
+		idx[i] = i
+	}
+	perm := shuffle(t, label+"perm", idx)
+	nf := rapid.IntRange(1, 4).Draw(t, label+"nfiles")
+	files := make([]LFile, nf)
+	dirs := []string{"", "sub", "sub/deeper", "other"}
+	for i := range files {
+		d := rapid.SampledFrom(dirs).Draw(t, fmt.Sprintf("%sdir%d", label, i))
+		ext := rapid.SampledFrom([]string{".yaml", ".yml"}).Draw(t, fmt.Sprintf("%sext%d", label, i))
+		name := fmt.Sprintf("f%d%s", i, ext)
+		if d != "" {
+			name = d + "/" + name
+		}
+		files[i].Path = name
+	}
+	for _, di := range perm {
+		k := rapid.IntRange(0, nf-1).Draw(t, fmt.Sprintf("%sfile%d", label, di))
+		files[k].Docs = append(files[k].Docs, di)
+	}
+	for i := range files {
+		if len(files[i].Docs) == 1 && rapid.Bool().Draw(t, fmt.Sprintf("%sjson%d", label, i)) {
+			files[i].Path = strings.TrimSuffix(strings.TrimSuffix(files[i].Path, ".yaml"), ".yml") + ".json"
+		}
+	}
+	return &Layout{Files: files}
+}
+
+// PermuteWorld returns a copy of w in which the documents of each kind, the NetworkPolicy rules, the peers and ports
+// inside a rule and the policyTypes are permuted - the re-orderings C08 names. The inside of a selector
+// (matchExpressions, values) and except lists are left as written: the tool echoes a selector's spelling in exposure
+// output, and the statement does not speak of them. ANP/BANP rules are ordered and are never permuted; ANP documents are.
+func PermuteWorld(t *rapid.T, label string, w *World) *World {
+	c := w.Clone()
+	c.Namespaces = shuffle(t, label+"pns", c.Namespaces)
+	c.Workloads = shuffle(t, label+"pwl", c.Workloads)
+	c.ANPs = shuffle(t, label+"panp", c.ANPs)
+	c.Services = shuffle(t, label+"psvc", c.Services)
+	c.Ingresses = shuffle(t, label+"ping", c.Ingresses)
+	c.Routes = shuffle(t, label+"prt", c.Routes)
+	c.NPs = shuffle(t, label+"pnp", c.NPs)
+	for i := range c.NPs {
+		p := &c.NPs[i]
+		l := fmt.Sprintf("%snp%d", label, i)
+		if p.PolicyTypes != nil {
+			p.PolicyTypes = shuffle(t, l+"pt", p.PolicyTypes)
+		}
+		pr := func(rs []Rule, l string) []Rule {
+			rs = shuffle(t, l, rs)
+			for k := range rs {
+				if rs[k].Peers != nil {
+					rs[k].Peers = shuffle(t, fmt.Sprintf("%speer%d", l, k), rs[k].Peers)
+				}
+				rs[k].Ports = shuffle(t, fmt.Sprintf("%sport%d", l, k), rs[k].Ports)
+			}
+			return rs
+		}
+		p.Ingress = pr(p.Ingress, l+"in")
+		p.Egress = pr(p.Egress, l+"eg")
+	}
+	return c
 }
